@@ -1,9 +1,11 @@
 """C15 – throttle: real `haiway.throttle` vs `hwmodel throttle`, exact virtual time.
 
-case   = `<limit|-> <period> <gap>:<duration>:<outcome>[:a|b]*`     (see lean/Driver/Throttle.lean)
+case   = `<limit|-> <period> <event>*`                                (see lean/Driver/Throttle.lean)
          all instants in ticks of 0.25 s; period f<q> = float q*0.25 | i<n> = int seconds | t<n> = timedelta(seconds=n)
-         | t<d>,<s>,<ms> = timedelta(days=d, seconds=s, milliseconds=ms); 4th call field: caller created after (a, default)
-         or before (b) the timers due at its arrival instant fire
+         | t<d>,<s>,<ms> = timedelta(days=d, seconds=s, milliseconds=ms)
+         call event   `<gap>:<duration>:<outcome>[:a|b|1|2|3]`  caller created after everything due at its arrival instant
+                      happened (a, default), before the timers due then fire (b), or k single loop iterations after them
+         cancel event `<gap>:x<i>[:a|b]`  cancel the caller of call i after (a) / before (b) what is due at that instant
 output = `<start>/<caller outcome>/<finish>` per call + ` order=<call indices in start order>`
          followed (implementation only, stripped by `canon`) by ` args=<bit per call>`.
 """
@@ -19,23 +21,27 @@ PID = "C15"
 LEAN_COMPONENT = "throttle"
 PROPS_MODULE = "Haiway.Props.C15"
 ANCHORS = ["src/haiway/helpers/throttling.py"]
-RULE = ("case = limit x period (float incl. fractions / int / timedelta incl. sub-second parts and whole days) x arrival pattern "
-        "(gap to the previous arrival, function duration, function outcome value/Exception/BaseException per call, and whether "
-        "the caller is created before or after the timers due at its arrival instant fire, i.e. both tie orders against a "
-        "sleeper waking at that instant); callers at one instant created in index order; time in exact quarter-second ticks. "
-        "quick: 4000 patterns of <= 12 calls (bursts, steady streams, gaps at period-1/period/period+1 ticks, arrivals exactly "
-        "at the instant a waiting call's delay ends, mixtures), limits 1-4. thorough: every gap vector over 0..period+1 for "
-        "<= 6 calls, periods 2 and 3 ticks, limits 1-4, both tie orders (durations, outcomes and period form rotating) + "
-        "200000 random patterns. "
-        "monitor: sliding half-open windows over the observed starts, start order = arrival order, start on arrival when "
-        "nothing forces a wait and otherwise at the first instant nothing forces a wait, every call ran once and its caller "
-        "got the function's own value / exception object. "
+RULE = ("case = limit x period (float incl. fractions / int / timedelta incl. sub-second parts and whole days) x timeline of "
+        "events: calls (gap to the previous event, function duration, function outcome value/Exception/BaseException, and "
+        "where inside its instant the caller is created: before the timers due then, 1-3 loop iterations after they fired, "
+        "or after everything settled - all tie orders against a sleeper waking / releasing the lock at that instant) and "
+        "cancellations of a caller (while queued on the lock, while sleeping for its turn, while the function runs; before "
+        "or after the timers of the instant); callers at one instant created in index order; exact quarter-second ticks. "
+        "quick: 4000 timelines of <= 12 calls (bursts incl. >= 2 queued waiters, steady streams, gaps at "
+        "period-1/period/period+1 ticks, arrivals exactly at the instant a waiting call's delay ends, cancellations aimed at "
+        "waiting calls, mixtures), limits 1-4. thorough: every gap vector over 0..period+1 for <= 6 calls, periods 2 and 3 "
+        "ticks, limits 1-4, four tie orders; every single cancellation (call, offset 0..period+1, tie order) on the vectors "
+        "of <= 4 calls; + 200000 random timelines. "
+        "monitor (over the calls that started): sliding half-open windows over the observed starts, start order = arrival "
+        "order, start on arrival when nothing forces a wait and otherwise at the first instant nothing forces a wait, every "
+        "call without a cancellation request ran once and its caller got the function's own value / exception object; a "
+        "cancelled caller gets CancelledError or (if it was already through) the function's outcome. "
         "non-trivial = at least one call was started later than it arrived (the throttle actually delayed something); "
         "distinct = by case text")
 TRUSTED = ["asyncio.Lock FIFO hand-over and asyncio.sleep/call_later as exercised through harness/vloop.py",
            "harness/comp_throttle.py run_real + monitor"]
 ASSUMPTIONS = ["arrival order = task creation order for callers arriving at the same virtual instant",
-               "callers are not cancelled while waiting for their turn", "time in quarter-second ticks (multiples of 0.25 s, exact in floating point)"]
+               "time in quarter-second ticks (multiples of 0.25 s, exact in floating point)"]
 
 
 class Boom(Exception):
@@ -47,6 +53,7 @@ class BaseBoom(BaseException):
 
 
 TICK = 0.25  # seconds per tick
+CALL_MODES = ("a", "b", "1", "2", "3")
 
 
 def parse_period(tok: str):
@@ -69,6 +76,48 @@ def parse_period(tok: str):
     raise ValueError(tok)
 
 
+class Call:
+    __slots__ = ("t", "dur", "out", "mode", "cancel")
+
+    def __init__(self, t, dur, out, mode):
+        self.t, self.dur, self.out, self.mode, self.cancel = t, dur, out, mode, None  # cancel = (time, before) of the first request
+
+
+def parse_events(toks):
+    """-> (calls, events); events = ("call", index) | ("cancel", index, time, before) in timeline order"""
+    t = 0
+    calls: list[Call] = []
+    events = []
+    for tok in toks:
+        parts = tok.split(":")
+        if len(parts) < 2:
+            raise ValueError(tok)
+        g = int(parts[0])
+        if g < 0:
+            raise ValueError(tok)
+        if parts[1].startswith("x"):
+            i = int(parts[1][1:])
+            mode = parts[2] if len(parts) == 3 else "a"
+            if len(parts) > 3 or mode not in ("a", "b") or not 0 <= i < len(calls) or (mode == "b" and g == 0):
+                raise ValueError(tok)
+            t += g
+            if calls[i].cancel is None:
+                calls[i].cancel = (t, mode == "b")
+            events.append(("cancel", i, t, mode == "b"))
+        else:
+            if len(parts) == 3:
+                parts.append("a")
+            if len(parts) != 4:
+                raise ValueError(tok)
+            d, o, mode = int(parts[1]), parts[2], parts[3]
+            if o not in ("v", "e", "b") or mode not in CALL_MODES or d < 0:
+                raise ValueError(tok)
+            t += g
+            calls.append(Call(t, d, o, mode))
+            events.append(("call", len(calls) - 1))
+    return calls, events
+
+
 def parse(case: str):
     toks = case.split()
     if len(toks) < 2:
@@ -80,20 +129,10 @@ def parse(case: str):
         if limit < 0:
             return None
         form, pargs, period = ("i", 1, 4) if bare else parse_period(per)
-        if period < 0:
-            return None
-        calls = []
-        for tok in toks[2:]:
-            parts = tok.split(":")
-            if len(parts) == 3:
-                parts.append("a")
-            g, d, o, mode = parts
-            if o not in ("v", "e", "b") or mode not in ("a", "b") or int(g) < 0 or int(d) < 0:
-                return None
-            calls.append((int(g), int(d), o, mode))
+        calls, events = parse_events(toks[2:])
     except (ValueError, IndexError):
         return None
-    return bare, limit, (form, pargs), period, calls
+    return bare, limit, (form, pargs), period, calls, events
 
 
 def advance_before(loop, t: float) -> None:
@@ -110,6 +149,11 @@ def advance_before(loop, t: float) -> None:
             return
 
 
+def one_iteration(loop) -> None:
+    loop.call_soon(loop.stop)
+    loop.run_forever()
+
+
 SENT_K = object()
 
 
@@ -119,7 +163,7 @@ def run_real(case: str) -> str:
     p = parse(case)
     if p is None:
         return "bad-case"
-    bare, limit, (form, pargs), period, calls = p
+    bare, limit, (form, pargs), period, calls, events = p
     clock = vloop.CLOCK
     loop = vloop.new_loop()   # also resets the clock to an integer instant
     try:
@@ -138,12 +182,11 @@ def run_real(case: str) -> str:
             order.append(i)
             starts.setdefault(i, ticks())
             argbits[i] = "1" if key is SENT_K else "0"
-            dur, out = calls[i][1], calls[i][2]
-            if dur:
-                await asyncio.sleep(dur * TICK)
-            if out == "v":
+            if calls[i].dur:
+                await asyncio.sleep(calls[i].dur * TICK)
+            if calls[i].out == "v":
                 return ("val", i)
-            exc = (Boom if out == "e" else BaseBoom)(i)
+            exc = (Boom if calls[i].out == "e" else BaseBoom)(i)
             raised[i] = exc
             raise exc
 
@@ -162,20 +205,33 @@ def run_real(case: str) -> str:
             try:
                 res = await wrapped(i, key=SENT_K)
                 o = f"v{res[1]}" if isinstance(res, tuple) and len(res) == 2 and res[0] == "val" else "v?"
+            except asyncio.CancelledError:
+                o = "c"
             except BaseException as exc:  # noqa: BLE001
                 k = next((j for j, e in raised.items() if e is exc), None)
                 o = f"x{k}" if k is not None else f"foreign:{type(exc).__name__}"
             done[i] = (o, ticks())
 
-        t = 0
-        tasks = []
-        for i, (g, _d, _o, mode) in enumerate(calls):
-            t += g
-            if mode == "b":
-                advance_before(loop, t0 + t * TICK)   # the caller runs before the timers of this instant
+        tasks: dict[int, asyncio.Task] = {}
+        for ev in events:
+            if ev[0] == "call":
+                i = ev[1]
+                when, mode = t0 + calls[i].t * TICK, calls[i].mode
+                if mode == "a":
+                    loop.advance_to(when)             # after everything due at this instant has happened
+                else:
+                    if clock.now < when:
+                        advance_before(loop, when)    # nothing due at this instant has fired yet
+                    for _ in range(0 if mode == "b" else int(mode)):
+                        one_iteration(loop)           # ... k loop iterations into the instant
+                tasks[i] = loop.create_task(caller(i))
             else:
-                loop.advance_to(t0 + t * TICK)        # ... after they fired and everything settled
-            tasks.append(loop.create_task(caller(i)))
+                _, i, t, before = ev
+                if before:
+                    advance_before(loop, t0 + t * TICK)
+                else:
+                    loop.advance_to(t0 + t * TICK)
+                tasks[i].cancel()
         loop.quiesce(advance=True)
 
         def num(x):
@@ -205,7 +261,7 @@ def monitor(case: str, out: str) -> list[str]:
     p = parse(case)
     if p is None:
         return []
-    bare, limit, _form, period, calls = p
+    bare, limit, _form, period, calls, _events = p
     if limit < 1 or period < 1:
         return []  # outside the property (limit >= 1, period > 0)
     if out.startswith("HANG") or " order=" not in out:
@@ -216,27 +272,28 @@ def monitor(case: str, out: str) -> list[str]:
     n = len(calls)
     if len(obs) != n:
         return ["throttle.no-observation:shape"]
-    arrivals, t = [], 0
-    for g, _d, _o, _m in calls:
-        t += g
-        arrivals.append(t)
+    arrivals = [c.t for c in calls]
     fails: list[str] = []
     starts: list[float | None] = []
+    gone: list[float | None] = []      # for a call that never started: the instant it gave up (cancelled)
     for i, tok in enumerate(obs):
         parts = tok.split("/")
         if len(parts) != 3:
             fails.append("throttle.call-failed-in-wrapper")
             starts.append(None)
+            gone.append(None)
             continue
-        s, o, _f = parts
+        s, o, f = parts
         starts.append(None if s == "-" else float(s))
-        if s == "-":
+        gone.append(float(f) if s == "-" and o == "c" and f != "-" else None)
+        cancelled_ok = calls[i].cancel is not None and o == "c"
+        if s == "-" and not cancelled_ok:
             fails.append("throttle.call-never-started")
-        want = f"v{i}" if calls[i][2] == "v" else f"x{i}"
+        want = f"v{i}" if calls[i].out == "v" else f"x{i}"
         if o == "pending":
             if s != "-":
                 fails.append("throttle.call-never-finished")
-        elif o != want:
+        elif o != want and not cancelled_ok:
             fails.append("throttle.wrong-outcome")
     order = [int(x) for x in order_s.split(",") if x]
     if len(order) != len(set(order)):
@@ -250,8 +307,9 @@ def monitor(case: str, out: str) -> list[str]:
         if inside > limit:
             fails.append("throttle.window-exceeded")
             break
-    # arrival order
-    if order != sorted(order) or any(a is not None and b is not None and a > b for a, b in zip(starts, starts[1:])):
+    # arrival order, over the calls that started
+    st_only = [s for s in starts if s is not None]
+    if order != sorted(order) or any(a > b for a, b in zip(st_only, st_only[1:])):
         fails.append("throttle.order")
     # no needless delay: on arrival, and (the same sentence read at every later instant) while waiting
     for i, (a, s) in enumerate(zip(arrivals, starts)):
@@ -259,19 +317,23 @@ def monitor(case: str, out: str) -> list[str]:
             continue
         if s < a:
             fails.append("throttle.started-before-arrival")
-        earlier = starts[:i]
-        if any(e is None for e in earlier):
-            continue
+        if any(starts[j] is None and gone[j] is None for j in range(i)):
+            continue                                        # an earlier call is unaccounted for: judged above
+        earlier = [e for e in starts[:i] if e is not None]
+        waiting_until = [g for e, g in zip(starts[:i], gone[:i]) if e is None]   # earlier callers that gave up
 
-        def free(t, earlier=earlier):  # no earlier call still waiting, fewer than `limit` began in (t - period, t]
-            return all(e <= t for e in earlier) and sum(1 for e in earlier if e > t - period) < limit
+        def free(t, earlier=earlier, waiting_until=waiting_until):
+            # no earlier call still waiting, fewer than `limit` began in (t - period, t]
+            return (all(e <= t for e in earlier) and all(g <= t for g in waiting_until)
+                    and sum(1 for e in earlier if e > t - period) < limit)
 
         if free(a):
             if s != a:
                 fails.append("throttle.needless-delay")
                 break
             continue
-        cands = sorted({e for e in earlier if e >= a} | {e + period for e in earlier if e + period >= a})
+        cands = sorted({e for e in earlier if e >= a} | {e + period for e in earlier if e + period >= a}
+                       | {g for g in waiting_until if g >= a})
         first_free = next(t for t in cands if free(t))
         if s > first_free:
             fails.append("throttle.delayed-beyond-need")
@@ -283,12 +345,11 @@ def _delays(case: str, out: str):
     p = parse(case)
     if p is None or " order=" not in out:
         return []
-    t, res = 0, []
-    for (g, _d, _o, _m), tok in zip(p[4], out.split(" order=")[0].split()):
-        t += g
+    res = []
+    for c, tok in zip(p[4], out.split(" order=")[0].split()):
         s = tok.split("/")[0]
         if s not in ("-", "IndexError"):
-            res.append(float(s) - t)
+            res.append(float(s) - c.t)
     return res
 
 
@@ -300,7 +361,7 @@ def classify(case: str, out: str):
     p = parse(case)
     if p is None:
         return
-    bare, limit, (form, pargs), period, calls = p
+    bare, limit, (form, pargs), period, calls, events = p
     yield f"limit:{'bare' if bare else limit}"
     yield f"period-form:{form}"
     if form == "t" and (pargs[0] or pargs[2]):
@@ -309,33 +370,41 @@ def classify(case: str, out: str):
         yield "period:fractional-float"
     yield f"period-ticks:{period if period <= 12 else '13-99' if period < 100 else '100+'}"
     yield f"calls:{len(calls)}"
-    gaps = [c[0] for c in calls[1:]]
+    arr = [c.t for c in calls]
+    gaps = [b - a for a, b in zip(arr, arr[1:])]
     if gaps and all(g == 0 for g in gaps):
         yield "pattern:burst"
     elif gaps and len(set(gaps)) == 1:
         yield "pattern:steady"
     if any(g in (period - 1, period, period + 1) for g in gaps):
         yield "pattern:gap-at-period-boundary"
-    if any(c[3] == "b" for c in calls):
-        yield "arrival:before-timers-of-its-instant"
-    if any(c[1] > 0 for c in calls):
+    for m in {c.mode for c in calls}:
+        yield f"arrival-mode:{m}"
+    if any(c.dur > 0 for c in calls):
         yield "fn:takes-time"
-    if any(c[2] != "v" for c in calls):
+    if any(c.out != "v" for c in calls):
         yield "fn:raises"
     d = _delays(case, out)
     yield f"delayed:{min(sum(1 for x in d if x > 0), 6)}"
+    if " order=" not in out:
+        return
+    toks = [tok.split("/") for tok in out.split(" order=")[0].split()]
+    if len(toks) != len(calls) or any(len(t) != 3 for t in toks):
+        return
     # an arrival exactly at the instant an earlier, delayed call starts (its wait ends there)
-    t, arr = 0, []
+    ends = {float(t[0]) for t, c in zip(toks, calls) if t[0] != "-" and float(t[0]) > c.t}
     for c in calls:
-        t += c[0]
-        arr.append(t)
-    if " order=" in out:
-        st = [tok.split("/")[0] for tok in out.split(" order=")[0].split()]
-        ends = {float(x) for x, a in zip(st, arr) if x not in ("-", "IndexError") and float(x) > a}
-        if any(a in ends and c[3] == "b" for a, c in zip(arr, calls)):
-            yield "tie:arrival-before-sleeper-wakes"
-        if any(a in ends and c[3] == "a" for a, c in zip(arr, calls)):
-            yield "tie:arrival-after-sleeper-woke"
+        if c.t in ends:
+            yield f"tie:arrival-at-a-sleepers-wake-up:{c.mode}"
+    for c, t in zip(calls, toks):
+        if c.cancel is None:
+            continue
+        if t[0] == "-":
+            yield "cancel:never-started"
+        elif t[1] == "c":
+            yield "cancel:while-function-runs"
+        else:
+            yield "cancel:too-late"
 
 
 # ----------------------------------------------------------------------------------------------
@@ -357,6 +426,26 @@ def corpus():
         "2 t0,0,1500 0:0:v 0:0:v 2:0:v 1:0:v 3:0:v:b 6:0:v:b",
         "3 f2 0:0:v 0:0:v 0:0:v 0:0:v 2:0:v:b 0:0:v:b 2:0:v:b",
         "1 f3 0:5:e 1:0:v 2:0:b:b 3:0:v:b 3:0:v:a",
+        # two slots expire together, one sleeper + one queued waiter, newcomer in the iteration of the hand-over
+        "2 f4 0:0:v 0:0:v 0:0:v 0:0:v 4:0:v:1",
+        "2 f4 0:0:v 0:0:v 0:0:v 0:0:v 4:0:v:2",
+        "2 f4 0:0:v 0:0:v 0:0:v 0:0:v 4:0:v:3",
+        "2 f4 0:0:v 0:0:v 0:0:v 0:0:v 4:0:v:b",
+        "3 i1 0:0:v 0:0:v 0:0:v 0:0:v 0:0:v 0:0:v 4:0:v:1 0:0:v:1",
+        "2 f2 0:0:v 0:0:v 0:0:v 0:0:v 0:0:v 2:0:v:1 2:0:v:2",
+        # cancelled callers: while sleeping for the turn (the deque must keep its entries), while queued, while running
+        "1 f4 0:0:v 1:0:v 1:x1 0:0:v",
+        "1 f4 0:0:v 1:0:v 1:x1 1:0:v",
+        "1 f4 0:0:v 1:0:v 1:x1:b 0:0:v:b",
+        "1 f4 0:0:v 1:0:v 3:x1:b 0:0:v",
+        "1 f4 0:0:v 1:0:v 3:x1 0:0:v",
+        "1 f4 0:0:v 0:0:v 0:0:v 1:x2 0:0:v",
+        "1 f4 0:0:v 0:0:v 0:0:v 1:x1 0:0:v 1:x2",
+        "2 f4 0:0:v 0:0:v 1:0:v 0:0:v 0:0:v 1:x2 1:x3 1:0:v",
+        "2 t0,0,1500 0:0:v 0:0:v 1:0:e 1:0:v 1:x2:b 2:x3 1:0:v:1",
+        "1 f4 0:9:v 2:x0 0:0:v 2:0:v",
+        "1 f4 0:9:e 9:x0:b 0:0:v",
+        "3 f3 0:0:v 0:0:v 0:0:v 0:2:v 0:0:v 0:0:v 1:x3 1:x4:b 1:x5 0:0:v:b",
         # boundary: an entry exactly one period old is dropped (<=); a burst at the boundary is spread out
         "1 f10 0:0:v 10:0:v 0:0:v 0:0:v",
         "1 f10 0:0:v 10:0:v:b 0:0:v:b 0:0:v:b",
@@ -407,6 +496,7 @@ def corpus():
     ]
 
 
+
 DURS = [0, 0, 0, 1, 2]
 OUTS = ["v", "v", "v", "e", "b"]
 # (token, ticks)
@@ -414,36 +504,75 @@ PERIODS = [("f1", 1), ("f2", 2), ("f3", 3), ("f3", 3), ("f4", 4), ("f5", 5), ("f
            ("i1", 4), ("i1", 4), ("i2", 8), ("i3", 12),
            ("t1", 4), ("t2", 8), ("t0,0,250", 1), ("t0,0,500", 2), ("t0,0,750", 3), ("t0,0,1500", 6), ("t0,1,250", 5),
            ("t0,2,500", 10), ("t1,0,0", 345600), ("t1,0,500", 345602), ("t2,1,250", 691205), ("t0,86399,750", 345599)]
+MODE_W = (["a"] * 9 + ["b"] * 5 + ["1"] * 3 + ["2"] * 2 + ["3"])
 
 
-def _call(rng, gap: int, period: int, tie: float = 0.35) -> str:
-    d = rng.choice(DURS + [period, 3 * period])
-    mode = ":b" if rng.random() < tie else ""
-    return f"{gap}:{d}:{rng.choice(OUTS)}{mode}"
+def serialise(limit_tok: str, ptok: str, evs) -> str:
+    """evs: list of ("call", t, dur, out, mode) | ("cancel", t, call index, before) in timeline order"""
+    toks, prev = [], 0
+    for ev in evs:
+        g = ev[1] - prev
+        prev = ev[1]
+        if ev[0] == "call":
+            _, _t, d, o, m = ev
+            toks.append(f"{g}:{d}:{o}" + ("" if m == "a" else f":{m}"))
+        else:
+            _, _t, i, before = ev
+            toks.append(f"{g}:x{i}" + (":b" if before and g > 0 else ""))
+    return " ".join([limit_tok, ptok, *toks])
 
 
-def _random_case(rng) -> str:
-    limit = rng.randint(1, 4)
-    ptok, period = rng.choice(PERIODS)
-    n = rng.randint(1, 12)
+def to_evs(case: str):
+    p = parse(case)
+    if p is None:
+        return None
+    calls, events = p[4], p[5]
+    evs = []
+    for ev in events:
+        if ev[0] == "call":
+            c = calls[ev[1]]
+            evs.append(("call", c.t, c.dur, c.out, c.mode))
+        else:
+            evs.append(("cancel", ev[2], ev[1], ev[3]))
+    return evs
+
+
+def reference_starts(limit: int, period: int, arrivals):
+    s = []
+    for i, a in enumerate(arrivals):
+        v = a
+        if i >= 1:
+            v = max(v, s[i - 1])
+        if i >= limit:
+            v = max(v, s[i - limit] + period)
+        s.append(v)
+    return s
+
+
+def add_cancel(evs, i: int, t: int, before: bool):
+    """insert a cancellation of call i at instant t after every event at an instant <= t"""
+    k = len(evs)
+    while k > 0 and evs[k - 1][1] > t:
+        k -= 1
+    return evs[:k] + [("cancel", t, i, before)] + evs[k:]
+
+
+def _gaps(rng, limit: int, period: int, n: int):
     style = rng.random()
     gaps: list[int] = [rng.choice([0, 0, 1, 2, period])]
     boundary = [period - 1, period, period + 1]
-    if style >= 0.8:
-        # a burst that overfills the window, then arrivals at exactly the instants the delayed calls start
-        k = rng.randint(limit + 1, min(12, 2 * limit + 2))
-        gaps = [rng.choice([0, 1])] + [rng.choice([0, 0, 0, 1]) for _ in range(k - 1)]
+    if style >= 0.75:
+        # a burst that overfills the window (>= 2 waiters), then arrivals at exactly the instants delayed calls start
+        k = rng.randint(limit + 1, min(12, 2 * limit + 3))
+        gaps = [rng.choice([0, 1])] + [rng.choice([0, 0, 0, 0, 1]) for _ in range(k - 1)]
         sofar = sum(gaps)
-        first = gaps[0]
-        target = first + period          # the head expires here: the (limit+1)-th call of the burst starts then
+        target = gaps[0] + period
         while len(gaps) < n:
             nxt = max(sofar, target)
             gaps.append(nxt - sofar)
             sofar = nxt
             target = rng.choice([sofar, sofar, sofar + period, sofar + 1])
-        gaps = gaps[:n]
-        toks = [_call(rng, g, period, tie=0.6 if j >= k else 0.2) for j, g in enumerate(gaps)]
-        return " ".join([str(limit), ptok, *toks])
+        return gaps[:n], k
     while len(gaps) < n:
         if style < 0.2:      # bursts separated by boundary gaps
             k = rng.randint(1, limit + 2)
@@ -451,14 +580,36 @@ def _random_case(rng) -> str:
         elif style < 0.4:    # steady stream
             g = rng.choice([1, max(1, period // limit), max(1, period // limit) + 1, period - 1, period, period + 1, 2])
             gaps += [g] * rng.randint(2, 6)
-            style = rng.random() * 0.8
+            style = rng.random() * 0.75
         elif style < 0.6:    # boundary gaps +-1 tick
             gaps.append(rng.choice(boundary + [0, 0]))
         else:                # mixture
             gaps.append(rng.choice([0, 0, 0, 1, 1, 2, 3, period - 1, period, period + 1, 2 * period,
                                     rng.randint(0, 2 * min(period, 40))]))
-    gaps = [max(0, g) for g in gaps[:n]]
-    return " ".join([str(limit), ptok, *(_call(rng, g, period) for g in gaps)])
+    return [max(0, g) for g in gaps[:n]], 0
+
+
+def _random_case(rng) -> str:
+    limit = rng.randint(1, 4)
+    ptok, period = rng.choice(PERIODS)
+    n = rng.randint(1, 12)
+    gaps, burst = _gaps(rng, limit, period, n)
+    evs, t = [], 0
+    for j, g in enumerate(gaps):
+        t += g
+        d = rng.choice(DURS + [period, 3 * period])
+        mode = rng.choice(MODE_W) if (not burst or j >= burst or rng.random() < 0.3) else "a"
+        evs.append(("call", t, d, rng.choice(OUTS), mode))
+    if rng.random() < 0.3:
+        arr = [e[1] for e in evs]
+        ref = reference_starts(limit, period, arr)
+        waiting = [i for i in range(len(arr)) if ref[i] > arr[i]]
+        for _ in range(rng.choice([1, 1, 2, 3])):
+            i = rng.choice(waiting) if waiting and rng.random() < 0.8 else rng.randrange(len(arr))
+            lo, hi = arr[i], ref[i]
+            c = rng.choice([lo, lo + 1, (lo + hi) // 2, hi - 1, hi, hi, hi + 1, hi + evs[i][2], lo + rng.randint(0, 2 * min(period, 40))])
+            evs = add_cancel(evs, i, max(lo, c), rng.random() < 0.45)
+    return serialise(str(limit), ptok, evs)
 
 
 GRID_FORMS = {2: ["f2", "t0,0,500", "f2"], 3: ["f3", "t0,0,750", "f3"]}
@@ -475,68 +626,117 @@ def generate(rng, tier):
             for n in range(1, 7):
                 for first in (0, 1):
                     for rest in itertools.product(range(0, period + 2), repeat=n - 1):
-                        for tie in ("", ":b"):
+                        arr, t = [], 0
+                        for g in (first, *rest):
+                            t += g
+                            arr.append(t)
+                        for tie in ("a", "b", "1", "2"):
                             k += 1
                             ptok = GRID_FORMS[period][k % 3]
-                            toks = [f"{g}:{DURS[(k + j) % 5] if k % 4 == 0 else 0}:"
-                                    f"{OUTS[(k + 2 * j) % 5] if k % 3 == 0 else 'v'}{tie if j else ''}"
-                                    for j, g in enumerate((first, *rest))]
-                            yield " ".join([str(limit), ptok, *toks])
+                            evs = [("call", a, DURS[(k + j) % 5] if k % 4 == 0 else 0,
+                                    OUTS[(k + 2 * j) % 5] if k % 3 == 0 else "v", tie if j else "a")
+                                   for j, a in enumerate(arr)]
+                            yield serialise(str(limit), ptok, evs)
+                        if n <= 4:
+                            base = [("call", a, 2 if j == 0 else 0, "v", "a") for j, a in enumerate(arr)]
+                            for i in range(n):
+                                for off in range(0, period + 2):
+                                    for before in (False, True):
+                                        yield serialise(str(limit), GRID_FORMS[period][0],
+                                                        add_cancel(base, i, arr[i] + off, before))
     for _ in range(200000):
         yield _random_case(rng)
 
 
 def mutate(rng, case: str) -> str:
     toks = case.split()
-    p = parse(case)
-    if p is None or len(toks) < 2 or toks[0] == "-":
+    evs = to_evs(case)
+    if evs is None or len(toks) < 2 or toks[0] == "-":
         return _random_case(rng)
-    period = p[3]
+    period = parse(case)[3]
+    ncalls = sum(1 for e in evs if e[0] == "call")
     r = rng.random()
-    if r < 0.15:
+    if r < 0.12:
         toks[0] = str(rng.randint(1, 4))
-    elif r < 0.3:
+    elif r < 0.24:
         toks[1] = rng.choice(PERIODS)[0]
-    elif r < 0.55 and len(toks) < 14:
-        toks.insert(rng.randint(2, len(toks)), _call(rng, rng.choice([0, 0, 1, period - 1, period, period + 1]), period))
-    elif len(toks) > 2:
-        i = rng.randrange(2, len(toks))
-        parts = toks[i].split(":")
-        if rng.random() < 0.3:
-            parts = parts[:3] + ([] if len(parts) == 4 and parts[3] == "b" else ["b"])
+    elif r < 0.45 and ncalls and ncalls < 12:
+        # a new call at the end or at an instant of an existing event
+        t = rng.choice([e[1] for e in evs] + [evs[-1][1] + rng.choice([0, 1, period - 1, period, period + 1])]) if evs else 0
+        k = len(evs)
+        while k > 0 and evs[k - 1][1] > t:
+            k -= 1
+        idx = sum(1 for e in evs[:k] if e[0] == "call")
+        evs = [(e if e[0] == "call" or e[2] < idx else ("cancel", e[1], e[2] + 1, e[3])) for e in evs]
+        evs = evs[:k] + [("call", t, rng.choice(DURS), rng.choice(OUTS), rng.choice(MODE_W))] + evs[k:]
+    elif r < 0.65 and ncalls:
+        i = rng.randrange(ncalls)
+        arr = [e[1] for e in evs if e[0] == "call"]
+        evs = add_cancel(evs, i, arr[i] + rng.choice([0, 1, 2, period - 1, period, period + 1]), rng.random() < 0.5)
+    elif evs:
+        j = rng.randrange(len(evs))
+        e = evs[j]
+        if e[0] == "call" and rng.random() < 0.5:
+            evs[j] = ("call", e[1], e[2], e[3], rng.choice(MODE_W))
         else:
-            g = int(parts[0])
-            parts[0] = str(max(0, g + rng.choice([-1, 1, -g, period])))
-        toks[i] = ":".join(parts)
-    return " ".join(toks)
+            shift = rng.choice([-1, 1, period])
+            lo = evs[j - 1][1] if j else 0
+            if e[1] + shift >= lo:
+                evs = evs[:j] + [(x[0], x[1] + shift, *x[2:]) for x in evs[j:]]
+    return serialise(toks[0], toks[1], evs)
 
 
 def shrink(case: str):
     toks = case.split()
-    if len(toks) < 2:
+    evs = to_evs(case)
+    if evs is None or len(toks) < 2:
         return
-    head, calls = toks[:2], [t.split(":") for t in toks[2:]]
+    head = toks[:2]
 
-    def join(cs):
-        return " ".join(head + [":".join(c) for c in cs])
+    def out(e2):
+        return serialise(head[0], head[1], e2)
 
-    for i in range(len(calls) - 1, -1, -1):     # drop a call, keeping later arrivals where they were
-        rest = [list(c) for c in calls[:i] + calls[i + 1:]]
-        if i < len(calls) - 1:
-            rest[i][0] = str(int(rest[i][0]) + int(calls[i][0]))
-        yield join(rest)
-    for i in range(len(calls) - 1, -1, -1):     # drop a call, shifting the rest
-        yield join(calls[:i] + calls[i + 1:])
-    for i, c in enumerate(calls):
-        if c[1] != "0":
-            yield join(calls[:i] + [[c[0], "0", *c[2:]]] + calls[i + 1:])
-        if c[2] != "v":
-            yield join(calls[:i] + [[c[0], c[1], "v", *c[3:]]] + calls[i + 1:])
-        if len(c) == 4:
-            yield join(calls[:i] + [c[:3]] + calls[i + 1:])
-        if int(c[0]) > 0:
-            yield join(calls[:i] + [["0", *c[1:]]] + calls[i + 1:])
-            yield join(calls[:i] + [[str(int(c[0]) - 1), *c[1:]]] + calls[i + 1:])
+    def drop_call(idx, shift):
+        res, seen, removed_t, prev_t = [], 0, None, 0
+        for e in evs:
+            if e[0] == "call":
+                if seen == idx:
+                    removed_t = (e[1], prev_t)
+                    seen += 1
+                    continue
+                seen += 1
+                res.append(e)
+            else:
+                if e[2] == idx:
+                    continue
+                res.append(("cancel", e[1], e[2] - (1 if e[2] > idx else 0), e[3]))
+            prev_t = e[1]
+        if shift and removed_t is not None:
+            d = removed_t[0] - removed_t[1]
+            res = [(x if x[1] < removed_t[0] else (x[0], x[1] - d, *x[2:])) for x in res]
+        return res
+
+    ncalls = sum(1 for e in evs if e[0] == "call")
+    for i in range(ncalls - 1, -1, -1):
+        yield out(drop_call(i, False))
+    for i in range(ncalls - 1, -1, -1):
+        yield out(drop_call(i, True))
+    for j, e in enumerate(evs):
+        if e[0] == "cancel":
+            yield out(evs[:j] + evs[j + 1:])
+            if e[3]:
+                yield out(evs[:j] + [("cancel", e[1], e[2], False)] + evs[j + 1:])
+        else:
+            if e[2]:
+                yield out(evs[:j] + [("call", e[1], 0, e[3], e[4])] + evs[j + 1:])
+            if e[3] != "v":
+                yield out(evs[:j] + [("call", e[1], e[2], "v", e[4])] + evs[j + 1:])
+            if e[4] != "a":
+                yield out(evs[:j] + [("call", e[1], e[2], e[3], "a")] + evs[j + 1:])
+        lo = evs[j - 1][1] if j else 0
+        if e[1] > lo:                          # pull this and every later event one tick / all the way earlier
+            for d in (e[1] - lo, 1):
+                yield out(evs[:j] + [(x[0], x[1] - d, *x[2:]) for x in evs[j:]])
     if head[0] not in ("-", "0", "1"):
         yield " ".join([str(int(head[0]) - 1), head[1], *toks[2:]])
     p = parse(case)
